@@ -141,6 +141,10 @@ type CR3Parts struct {
 	// harmless shapes (CNCV of any length, CTBO empty / 3 bytes / hundreds of entries, an empty or
 	// 4-byte CMT3) and all children come in a random order.
 	OddSiblings bool
+	// CanonTop: the Canon metadata uuid box is a top-level box of its own (after moov) instead of
+	// a child of moov, and its last child is an 8..15-byte free box: too short for the 16 bytes a
+	// child header is peeked with.
+	CanonTop bool
 }
 
 // CR3 is a generated file and its ground truth.
@@ -248,7 +252,11 @@ func BuildCR3(r *core.Rng, p CR3Parts, noise int, large64 bool) CR3 {
 	canon := &Box{Type: "uuid", UUID: UUIDCanonMeta, Kids: sprinkle(canonKids), Large: lg(), Tag: "uuid-canon"}
 	named["uuid-canon"] = canon
 	moovKids := []*Box{canon}
-	if r.Chance(2, 3) {
+	if p.CanonTop {
+		canon.Kids = append(canon.Kids, &Box{Type: r.PickStr("free", "skip", "abcd"), Payload: r.Bytes(r.Intn(8)), Tag: "tail"})
+		moovKids = nil
+	}
+	if r.Chance(2, 3) || p.CanonTop {
 		moovKids = append(moovKids, &Box{Type: "mvhd", Full: true, Payload: r.Bytes(96), Tag: "mvhd"})
 	}
 	for i := r.Range(0, 3); i > 0; i-- {
@@ -265,6 +273,9 @@ func BuildCR3(r *core.Rng, p CR3Parts, noise int, large64 bool) CR3 {
 	}
 	top := []*Box{Ftyp("crx ", 1, brands...)}
 	top = append(top, moov)
+	if p.CanonTop {
+		top = append(top, canon)
+	}
 	if p.XMP != nil {
 		xp := &Box{Type: "uuid", UUID: UUIDXPacket, Payload: p.XMP, Large: lg(), Tag: "xpacket"}
 		named["xpacket"] = xp
